@@ -73,7 +73,8 @@ where
 
         let count = intersection.size.width * intersection.size.height;
 
-        let mut colors = colors.into_iter();
+        // fused: the colors are polled again after the initial skip may have hit their end
+        let mut colors = colors.into_iter().fuse();
 
         if &intersection == area {
             // Draw the original iterator if no edge overlaps the framebuffer
